@@ -193,8 +193,7 @@ class Exec:
             lab = "iter:%s" % (out[0] if out[0] == "ok" else out[1])
             if out[0] != "ok":
                 self.viol("iter-raised:%s" % out[1], "process_iter() raised %r" % (out,))
-            elif out[1] != sorted(w.procs):
-                self.viol("iter-list", "process_iter() yielded %r, table %r" % (out[1], sorted(w.procs)))
+            # completeness / order of the listing is C04's business, not checked here
         elif k == "boot_time":
             out = outcome(ps.boot_time)
             if out != ("ok", float(w.btime)):
